@@ -210,6 +210,37 @@ def nested_run(make_md, doc_a, doc_b, k, granularity, codes, limit=10.0):
     return a, state["b"], state["n"], state["where"]
 
 
+def first_occurrences(make_md, doc, codes):
+    """event indices (LINE granularity, as the Controller counts them) at which each source line of the library is
+    executed for the first time during the first use of a fresh instance: pre-empting there lands inside every
+    lazy initialisation exactly when it happens"""
+    md = make_md()
+    seen, firsts, n = set(), [], [0]
+
+    def cb(code, line):
+        n[0] += 1
+        key = (code, line)
+        if key not in seen:
+            seen.add(key)
+            firsts.append(n[0])
+        return None
+    mon.use_tool_id(TOOL, "verif-c13")
+    try:
+        mon.register_callback(TOOL, mon.events.LINE, cb)
+        for c in codes:
+            mon.set_local_events(TOOL, c, mon.events.LINE)
+        try:
+            md.render(doc)
+        except BaseException:  # noqa: BLE001
+            pass
+    finally:
+        for c in codes:
+            mon.set_local_events(TOOL, c, 0)
+        mon.register_callback(TOOL, mon.events.LINE, None)
+        mon.free_tool_id(TOOL)
+    return firsts
+
+
 def count_events(make_md, doc, granularity, codes):
     _, _, n, _ = nested_run(make_md, doc, "", 0, granularity, codes)
     return n
@@ -238,6 +269,11 @@ def mk_reconfigured():
 DOC_A = "intro *e*\n\n* item\n  > q\n\n[x](http://a.example/é%20?q=1 \"T\") ![p](/i.png)\n\n[r]: /ref-a\n\n[r]\n"
 DOC_B = "some text\n# Title\nmore text\n> quote\n\n1. one\n- dash\n\n[beta](http://b.example/two/longer/path) `c` **s**\n\n[r]: /ref-b 'tb'\n\n[r] <http://b.c/é%20?q=1>\n"
 DOC_C = "| a | b |\n|---|---|\n| 1 | ~~2~~ |\n\n```py\nx\n```\n"
+# every construct whose recognition depends on a per-instance switch read at parse time (code, html, table, fence, ...):
+# anything computed lazily on first use and kept on a shared object shows when the first call is pre-empted early
+DOC_F = "# Title\n\nsome *text* with `code` here\n"
+DOC_G = ("intro\n\n    indented code\n    more code\n\n> quote\n>\n>     quoted code\n\n<div>\nhtml\n</div>\n\n| t |\n|---|\n| c |\n\n"
+         "~~~\nfence\n~~~\n\n1. a\n   - b\n\nsetext\n===\n\n***\n\n[r]: /u\n\n[r] <b>x</b> &amp; ~~s~~ \"q\" end\n")
 # state of the inline parser that must be per call: backtick closer cache, skipToken memo, delimiter lists, link title result
 DOC_D = "Write `` in prose, then run `make` and `make test` to check [x](/u 't1') *a* [[n]](/v).\n"
 DOC_E = "A stray `` and a lone ` here ![i](/s \"t2\") **b** [[[m]]](/w 'tw').\n"
@@ -307,10 +343,10 @@ def run(ctx) -> int:
 
     makers = [("fresh commonmark", mk_fresh()), ("fresh js-default+ext", mk_fresh("js-default", {"typographer": True})),
               ("reconfigured", mk_reconfigured)]
-    pairs = [(DOC_A, DOC_B), (DOC_D, DOC_E), (DOC_B, DOC_C)]
+    pairs = [(DOC_A, DOC_B), (DOC_F, DOC_G), (DOC_D, DOC_E), (DOC_B, DOC_C)]
     # (i-a) every instruction boundary inside ruler.py during A's first use, B nested
     for mname, mk in makers:
-        for da, db in pairs[: 1 if tier == "quick" else 3]:
+        for da, db in pairs[: 1 if tier == "quick" else 4]:
             sa, sb = solo(mk, da), solo(mk, db)
             n = count_events(mk, da, "instruction", ruler_codes)
             ks = range(1, n + 1)
@@ -334,9 +370,15 @@ def run(ctx) -> int:
                 sa, sb = solo(mk, da), solo(mk, db)
                 n = count_events(mk, da, "line", all_codes)
                 ks = list(range(1, n + 1))
-                cap = 500 if tier == "quick" else 100000
+                cap = 300 if tier == "quick" else 100000
                 if len(ks) > cap:
-                    ks = sorted(rng.sample(ks, cap))
+                    # the first use of an instance initialises whatever is computed lazily: pre-empt at the first
+                    # execution of every source line (all of them for the construct-rich pair, a sample otherwise),
+                    # and at a random sample of the remaining boundaries
+                    firsts = [k for k in first_occurrences(mk, da, all_codes) if k <= n]
+                    if (da, db) != (DOC_F, DOC_G) and len(firsts) > 200:
+                        firsts = sorted(rng.sample(firsts, 200))
+                    ks = sorted(set(firsts) | set(rng.sample(ks, 100)))
                 for k in ks:
                     md = mk()
                     c = Controller([lambda: md.render(da), lambda: md.render(db)], [(0, k), (1, 1 << 50)], "line", all_codes)
@@ -435,7 +477,7 @@ def run(ctx) -> int:
             "Gen/RulerShape.v (dis of Ruler.getRules/__compile__) ties the model's atomic actions to the bytecode"],
         "theorems": proofs["obligations"], "print_assumptions": proofs["assumptions"],
         "evaluations": n_sched + len(cases), "distinct_nontrivial": n_sched + len(set(lines)),
-        "rule": "implementation schedules: (i-a) B nested at every bytecode boundary inside ruler.py during A's first use of the instance; (i-b) B in a second thread at source-line boundaries anywhere in markdown_it/mdurl; (ii) random fine-grained 2-3 thread schedules gated by sys.monitoring; instances fresh (2 presets) and freshly reconfigured; every schedule is a distinct case. model schedules: random rules x programs x schedules vs the chain spec",
+        "rule": "implementation schedules: (i-a) B nested at every bytecode boundary inside ruler.py during A's first use of the instance; (i-b) B in a second thread at source-line boundaries anywhere in markdown_it/mdurl - at the first execution of every source line during the first use of the instance (every lazy initialisation window) plus a random sample of the other boundaries; (ii) random fine-grained 2-3 thread schedules gated by sys.monitoring; instances fresh (2 presets) and freshly reconfigured; every schedule is a distinct case. model schedules: random rules x programs x schedules vs the chain spec",
         "samples": samples + [{"mode": "nested", "k": 17, "doc_a": DOC_A[:30], "doc_b": DOC_B[:30]}],
         "states": n_sched, "transitions": n_sched, "traces_validated_against_impl": n_sched,
         "model_schedules": len(cases), "model_mismatches": len(model_bad),
